@@ -296,7 +296,8 @@ impl Property for LabProp {
 
     fn cases(&self, tier: Tier) -> u64 {
         let q = match self.id {
-            "C05" | "C07" => 3000,
+            "C05" => 3000,
+            "C07" => 7000,
             _ => 4000,
         };
         match tier {
@@ -336,6 +337,7 @@ impl Property for LabProp {
         profile.exclude_lazy_parser = full.exclude_lazy_parser;
         if self.id == "C07" {
             profile.p_serial_tag = 35;
+            profile.p_focus_serial_retry = 50;
         }
         if self.id == "C06" {
             profile.conc_weights = [4, 4, 1, 0, 0, 0];
